@@ -281,6 +281,44 @@ fn value_families(thorough: bool) -> Vec<(String, MetadataWrapper)> {
             out.push((format!("digest sha512 fixed + sha256 {n}"), link_of(two)));
         }
     }
+    // tables of two and three artifacts whose digest maps are *different in shape*: every
+    // combination of 7 maps (none, one algorithm, the other, both; two digest values) per artifact,
+    // on the materials and on the products side. What one artifact carries must never show in,
+    // or be confused with, what its neighbour carries.
+    {
+        use in_toto::crypto::{HashAlgorithm, HashValue};
+        use in_toto::models::TargetDescription;
+        let (x, y) = (world::h(1), world::h(2));
+        let mk = |e: &[(HashAlgorithm, &Vec<u8>)]| -> TargetDescription { e.iter().map(|(a, v)| (a.clone(), HashValue::new((*v).clone()))).collect() };
+        let shapes: Vec<(&str, TargetDescription)> = vec![
+            ("{}", mk(&[])),
+            ("{256:x}", mk(&[(HashAlgorithm::Sha256, &x)])),
+            ("{256:y}", mk(&[(HashAlgorithm::Sha256, &y)])),
+            ("{512:x}", mk(&[(HashAlgorithm::Sha512, &x)])),
+            ("{256:x,512:x}", mk(&[(HashAlgorithm::Sha256, &x), (HashAlgorithm::Sha512, &x)])),
+            ("{256:x,512:y}", mk(&[(HashAlgorithm::Sha256, &x), (HashAlgorithm::Sha512, &y)])),
+            ("{256:y,512:x}", mk(&[(HashAlgorithm::Sha256, &y), (HashAlgorithm::Sha512, &x)])),
+        ];
+        let link_of = |side: &str, t: Vec<(&str, TargetDescription)>| -> MetadataWrapper {
+            let table: std::collections::BTreeMap<_, _> = t.into_iter().map(|(k, v)| (world::vpath(k), v)).collect();
+            let b = LinkMetadataBuilder::new().name("n".into());
+            MetadataWrapper::Link(if side == "materials" { b.materials(table) } else { b.products(table) }.build().unwrap())
+        };
+        for side in ["materials", "products"] {
+            for (na, da) in &shapes {
+                for (nb, db) in &shapes {
+                    out.push((format!("{side} a{na} b{nb}"), link_of(side, vec![("a", da.clone()), ("b", db.clone())])));
+                }
+            }
+        }
+        for (na, da) in &shapes[3..] {
+            for (nb, db) in &shapes[..4] {
+                for (nc, dc) in &shapes[..4] {
+                    out.push((format!("products a{na} b{nb} c{nc}"), link_of("products", vec![("a", da.clone()), ("b", db.clone()), ("c", dc.clone())])));
+                }
+            }
+        }
+    }
     // key-table entries that differ only in the declared scheme or in the hash-algorithm list
     {
         use in_toto::crypto::PublicKey;
@@ -298,6 +336,32 @@ fn value_families(thorough: bool) -> Vec<(String, MetadataWrapper)> {
             let mut l = world::layout(vec![], vec![], &[], base_t);
             l.keys.insert(k.key_id().clone(), k);
             out.push((format!("key table entry {n}"), MetadataWrapper::Layout(l)));
+        }
+    }
+    // key tables as only the in-memory API can build them: two keys A, B filed under their own
+    // ids, swapped, one of them under zeros / under its id in upper case / under both its own id and
+    // zeros. Which key sits under which identifier is content (steps name identifiers).
+    {
+        use in_toto::crypto::KeyId;
+        use std::str::FromStr;
+        let (ka, kb) = (keys::get("ed1").public().clone(), keys::get("ed2").public().clone());
+        let id = |k: &in_toto::crypto::PublicKey| serde_json::to_value(k.key_id()).unwrap().as_str().unwrap().to_string();
+        let (ia, ib) = (id(&ka), id(&kb));
+        let tables: Vec<(&str, Vec<(String, &in_toto::crypto::PublicKey)>)> = vec![
+            ("own ids", vec![(ia.clone(), &ka), (ib.clone(), &kb)]),
+            ("swapped", vec![(ia.clone(), &kb), (ib.clone(), &ka)]),
+            ("A under zeros", vec![("0".repeat(64), &ka), (ib.clone(), &kb)]),
+            ("A under its id in upper case", vec![(ia.to_uppercase(), &ka), (ib.clone(), &kb)]),
+            ("A under its id and under zeros", vec![(ia.clone(), &ka), ("0".repeat(64), &ka), (ib.clone(), &kb)]),
+            ("B under A's id only", vec![(ia.clone(), &kb)]),
+            ("A only", vec![(ia.clone(), &ka)]),
+        ];
+        for (n, t) in tables {
+            let mut l = world::layout(vec![world::step("s", 1, &[keys::get("ed1")])], vec![], &[], base_t);
+            for (label, k) in t {
+                l.keys.insert(KeyId::from_str(&label).unwrap(), k.clone());
+            }
+            out.push((format!("key table in memory: {n}"), MetadataWrapper::Layout(l)));
         }
     }
     // long strings: captured output and the like
@@ -732,7 +796,7 @@ pub fn run(tier: Tier) -> i32 {
     let _ = KeyId::from_str;
     crate::envprobe::judge(&mut acc, "C05:", &mut c.extra);
     c.acc = acc;
-    c.rule = "(a) metadata values from the field alphabets (every string field x critical and wide strings, splits of one string across adjacent fields, structural near-collisions, thresholds x pubkey lists x key tables, expiry seconds, every rule form in every position, repeated steps / inspections / key ids / rules / arguments, digests of 8 lengths and with single-byte differences in one- and two-algorithm maps, key-table entries over one key material with 5 hash-algorithm lists / 2 schemes, strings of 15..1025 (70001) characters) signed with one Ed25519 key: unequal values must give different signatures; canonical encodings of the C10 value grammar pairwise distinct; (b) every single-field edit (incl. every digest byte and every rule token, and for every leaf: strings re-spelled in 12 ways, integers +-1 / negated / +2^8..+2^63 / -2^32, null <-> empty, member removed) of a signed layout and four signed links, for 5 signer sets, must fail verification and pass again when undone. distinct_nontrivial = distinct signed byte strings + distinct canonical encodings + edits that change the parsed value".into();
+    c.rule = "(a) metadata values from the field alphabets (every string field x critical and wide strings, splits of one string across adjacent fields, structural near-collisions, thresholds x pubkey lists x key tables, expiry seconds, every rule form in every position, repeated steps / inspections / key ids / rules / arguments, digests of 8 lengths and with single-byte differences in one- and two-algorithm maps, tables of two / three artifacts over 7 digest-map shapes each, key-table entries over one key material with 5 hash-algorithm lists / 2 schemes, 7 key tables as the in-memory API can file them (own ids, swapped, under zeros, under another spelling), strings of 15..1025 (70001) characters) signed with one Ed25519 key: unequal values must give different signatures; canonical encodings of the C10 value grammar pairwise distinct; (b) every single-field edit (incl. every digest byte and every rule token, and for every leaf: strings re-spelled in 15 ways, integers +-1 / negated / +2^8..+2^63 / -2^32, null <-> empty, member removed) of a signed layout and four signed links, for 5 signer sets, must fail verification and pass again when undone. distinct_nontrivial = distinct signed byte strings + distinct canonical encodings + edits that change the parsed value".into();
     c.bound_completed = format!("critical strings <= {}, wide strings <= {}, split words <= {}", if tier.thorough() { 4 } else { 3 }, if tier.thorough() { 2 } else { 1 }, if tier.thorough() { 4 } else { 3 });
     c.assume("Ed25519 signing by a fixed key is deterministic and collision-free on distinct messages, so equal signatures <=> equal signed bytes");
     c.assume("unequal = PartialEq on the parsed metadata (expiry enumerated at whole seconds)");
